@@ -12,7 +12,9 @@ import (
 
 // c16Program: a program whose internal tables are large: several packages sharing one
 // package name, many values, several injectors over two files, blank imports, copied decls.
-func c16Program(e *Env, i int) *Program {
+func c16Program(e *Env, i int) *Program { return c16ProgramID(e, i, fmt.Sprintf("dt%03d", i)) }
+
+func c16ProgramID(e *Env, i int, id string) *Program {
 	r := Rng(e.Seed, "c16", i)
 	o := DefaultGenOpts()
 	o.NPkgs = 3 + i%2
@@ -20,7 +22,7 @@ func c16Program(e *Env, i int) *Program {
 	o.NInj = 4
 	o.PCleanup, o.PErr = 0.3, 0.3
 	o.Kinds = []string{"func", "func", "value", "value", "value", "ifacevalue", "struct", "bind", "parent", "arg"}
-	g := GenProgram(fmt.Sprintf("dt%03d", i), r, o)
+	g := GenProgram(id, r, o)
 	p := g.P
 	// identical package names at different paths
 	for k := 1; k < len(p.Pkgs); k++ {
@@ -47,6 +49,23 @@ func c16Program(e *Env, i int) *Program {
 				seen[d.Pkg] = true
 			}
 		}
+	}
+	// every program of this family has an injector with value variables of the same type name in
+	// two packages (=> _wireSettingsValue, _wire<Pkg>SettingsValue): name tables that leak between
+	// packages of one invocation, or between injectors, show as different names
+	{
+		b := &PB{P: p, n: 9000}
+		s0 := b.Carrier(0, "Settings")
+		last := len(p.Pkgs) - 1
+		s1 := b.Carrier(last, "Settings")
+		if last == 0 {
+			s1 = b.Carrier(0, "Settings2")
+		}
+		v0, v1 := b.Value(s0), b.Value(s1)
+		u := b.Carrier(0, "SettingsUser")
+		f := b.Func(0, "NewSettingsUser", u, false, false, s0, s1)
+		in := b.Inj("InitSettings", u, false, false, nil, refs(v0, v1, f)...)
+		in.File = 1
 	}
 	p.InjBlankImports = []string{"embed", "net/http/pprof", "image/png"}
 	p.InjRaw = "// copied declarations\nvar copiedVar = map[string]int{\"a\": 1, \"b\": 2}\n\ntype copiedType struct{ A, B int }\n\nfunc copiedFunc(x int) int {\n\ty := x * 2\n\treturn y + len(copiedVar)\n}\n"
@@ -117,7 +136,9 @@ func CheckC16(e *Env) int {
 		if !Analyze(p).Accepted() {
 			return
 		}
-		others := []*Program{cliS(i % 6), cliS((i + 1) % 6), cliN(i % 2)}
+		// other packages of the shared invocation: small ones, plus two programs of the same shape
+		// (same-named packages and value types) that sort before and after this one
+		others := []*Program{cliS(i % 6), cliS((i + 1) % 6), cliN(i % 2), c16ProgramID(e, i+5000, fmt.Sprintf("aa%03d", i)), c16ProgramID(e, i+7000, fmt.Sprintf("zz%03d", i))}
 		pkgRel := filepath.Join(p.ID, p.Pkgs[0].Dir)
 		var runs []layoutRun
 		read := func(root string) ([]byte, string) {
